@@ -180,3 +180,23 @@ def two_pool_scenarios(rng, n):
             ops[-1].pop('progress_bar', None)
         out.append({'seed': rng.randint(0, 10 ** 6), 'pool': pool, 'ops': ops, 'all_valid': not any(o['op'] == 'terminate' for o in ops), 'two_pools': True})
     return out
+
+
+def gen_reuse_fail_scenario(rng):
+    """workers that are REUSED (kept alive after a successful call, or started by apply submissions) run a call of the other ordering
+    mode with otherwise identical parameters, and a task of that call raises: the error — and the arguments its cause lists — are
+    those of the failing task of THIS call"""
+    nj = rng.choice([1, 2, 3])
+    elem = rng.choice(['scalar', 'tuple', 'list', 'dict', 'str'])
+    n2 = rng.randint(3, 10)
+    first_ordered = rng.random() < .5
+    op2 = {'op': rng.choice(['map_unordered', 'imap_unordered'] if first_ordered else ['map', 'imap']), 'n': n2, 'chunk_size': rng.choice([1, 2]), 'elem': elem,
+           'fail': {'at': [rng.randrange(n2)], 'exc': rng.choice(['ValueError', 'Custom', 'KeyError'])}}
+    if rng.random() < .6:
+        pool = {'n_jobs': nj, 'start_method': rng.choice(['fork', 'threading']), 'keep_alive': True}
+        op1 = {'op': rng.choice(['map', 'imap'] if first_ordered else ['map_unordered', 'imap_unordered']), 'n': rng.randint(2, 8), 'chunk_size': op2['chunk_size'], 'elem': elem}
+    else:
+        pool = {'n_jobs': nj, 'start_method': 'fork'}
+        op1 = {'op': 'apply_batch', 'tasks': [{'idx': i} for i in range(rng.randint(1, 3))], 'dur': {'kind': 'map', 'map': {}, 'default': 0.01}, 'get_timeout': 30}
+        op2['op'] = rng.choice(['map', 'imap', 'map_unordered'])
+    return {'seed': rng.randint(0, 10 ** 6), 'pool': pool, 'ops': [op1, op2], 'same_func': True, 'relax_shape': True}
